@@ -212,11 +212,14 @@ Deviation(c) ==
     [] c.cls = "box.SealAnonymous" -> DevAnon
     [] c.cls = "aead.Open/asm" -> DevAeadTag
     [] OTHER -> "none"
-DeviationApplies(c) ==
+\* where a deviation shows (whether or not it has been repaired since): a regression of a repaired deviation is reported
+\* by the conformance harness under the finding's original signature
+DeviationRegion(c) ==
   LET n == Payload(c) IN
-  CASE c.cls \in StreamUnchecked -> DevSalsa \notin Fixed
-    [] c.cls = "box.SealAnonymous" -> DevAnon \notin Fixed /\ ~Realloc(c.d, NeedOf(c)) /\ AnyOverlap(Buf(c.d.a + c.d.p, EpkLen), c.in)
-    [] c.cls = "aead.Open/asm" -> DevAeadTag \notin Fixed /\ AnyOverlap(TailOf(c), Sub(c.in, n, n + TagLen))
+  CASE c.cls \in StreamUnchecked -> TRUE
+    [] c.cls = "box.SealAnonymous" -> ~Realloc(c.d, NeedOf(c)) /\ AnyOverlap(Buf(c.d.a + c.d.p, EpkLen), c.in)
+    [] c.cls = "aead.Open/asm" -> AnyOverlap(TailOf(c), Sub(c.in, n, n + TagLen))
     [] OTHER -> FALSE
+DeviationApplies(c) == Deviation(c) \notin Fixed /\ DeviationRegion(c)
 MisuseCaughtExcept(c) == MisuseCaught(c) \/ DeviationApplies(c)
 =============================================================================
